@@ -2,6 +2,10 @@
 //! Each harness hands one decode entry point a buffer whose bytes AND length are symbolic.
 //! What is checked is Kani's own: no panic, no arithmetic overflow, no out-of-bounds, and the
 //! unwinding assertions (every loop ends within the bound, i.e. it consumes input).
+//! Memory clause: alloc::alloc::{alloc, alloc_zeroed, realloc} are replaced by versions that assert
+//! every single request is <= stubs::ALLOC_CAP (16 MiB, a constant far above anything the decoders
+//! derive from 8/16-bit counts) before forwarding to the system allocator; natively (replay) the
+//! same bound is observed by the recording global allocator of this crate's test build.
 use nexrad_decode::messages::digital_radar_data::decode_digital_radar_data;
 use nexrad_decode::messages::{decode_message_contents, decode_message_header, decode_messages};
 use std::io::Cursor;
@@ -15,6 +19,9 @@ fn any_len<const L: usize>() -> ([u8; L], usize) {
 
 #[kani::proof]
 #[kani::stub(alloc::fmt::format, crate::stubs::fmt_format)]
+#[kani::stub(alloc::alloc::alloc, crate::stubs::alloc_capped)]
+#[kani::stub(alloc::alloc::alloc_zeroed, crate::stubs::alloc_zeroed_capped)]
+#[kani::stub(alloc::alloc::realloc, crate::stubs::realloc_capped)]
 fn c04_header() {
     let (b, n) = any_len::<40>();
     let r = decode_message_header(&mut &b[..n]);
@@ -26,6 +33,9 @@ fn c04_header() {
 
 #[kani::proof]
 #[kani::stub(alloc::fmt::format, crate::stubs::fmt_format)]
+#[kani::stub(alloc::alloc::alloc, crate::stubs::alloc_capped)]
+#[kani::stub(alloc::alloc::alloc_zeroed, crate::stubs::alloc_zeroed_capped)]
+#[kani::stub(alloc::alloc::realloc, crate::stubs::realloc_capped)]
 fn c04_rda_status() {
     let (b, n) = any_len::<130>();
     let r = nexrad_decode::messages::rda_status_data::decode_rda_status_message(&mut &b[..n]);
@@ -39,6 +49,9 @@ fn c04_rda_status() {
 #[kani::proof]
 #[kani::unwind(5)]
 #[kani::stub(alloc::fmt::format, crate::stubs::fmt_format)]
+#[kani::stub(alloc::alloc::alloc, crate::stubs::alloc_capped)]
+#[kani::stub(alloc::alloc::alloc_zeroed, crate::stubs::alloc_zeroed_capped)]
+#[kani::stub(alloc::alloc::realloc, crate::stubs::realloc_capped)]
 fn c04_vcp() {
     let (b, n) = any_len::<{ 22 + 46 * 3 + 8 }>();
     let r = nexrad_decode::messages::volume_coverage_pattern::decode_volume_coverage_pattern(&mut &b[..n]);
@@ -57,6 +70,9 @@ fn c04_vcp() {
 #[kani::proof]
 #[kani::unwind(24)]
 #[kani::stub(alloc::fmt::format, crate::stubs::fmt_format)]
+#[kani::stub(alloc::alloc::alloc, crate::stubs::alloc_capped)]
+#[kani::stub(alloc::alloc::alloc_zeroed, crate::stubs::alloc_zeroed_capped)]
+#[kani::stub(alloc::alloc::realloc, crate::stubs::realloc_capped)]
 fn c04_clutter_map() {
     let (b, n) = any_len::<44>();
     let r = nexrad_decode::messages::clutter_filter_map::decode_clutter_filter_map(&mut &b[..n]);
@@ -77,6 +93,9 @@ fn c04_clutter_map() {
 #[kani::proof]
 #[kani::unwind(12)]
 #[kani::stub(alloc::fmt::format, crate::stubs::fmt_format)]
+#[kani::stub(alloc::alloc::alloc, crate::stubs::alloc_capped)]
+#[kani::stub(alloc::alloc::alloc_zeroed, crate::stubs::alloc_zeroed_capped)]
+#[kani::stub(alloc::alloc::realloc, crate::stubs::realloc_capped)]
 #[kani::stub(<[u8; 4] as core::convert::TryFrom<&[u8]>>::try_from, crate::stubs::array_try_from)]
 fn c04_type31() {
     let (b, n) = any_len::<{ 32 + 8 + 64 }>();
@@ -102,6 +121,9 @@ fn c04_type31() {
 #[kani::proof]
 #[kani::unwind(12)]
 #[kani::stub(alloc::fmt::format, crate::stubs::fmt_format)]
+#[kani::stub(alloc::alloc::alloc, crate::stubs::alloc_capped)]
+#[kani::stub(alloc::alloc::alloc_zeroed, crate::stubs::alloc_zeroed_capped)]
+#[kani::stub(alloc::alloc::realloc, crate::stubs::realloc_capped)]
 #[kani::stub(<[u8; 4] as core::convert::TryFrom<&[u8]>>::try_from, crate::stubs::array_try_from)]
 fn c04_type31_one_block_free() {
     let mut b: [u8; 76] = kani::any();
@@ -113,6 +135,7 @@ fn c04_type31_one_block_free() {
 fn type31_run(b: &[u8; 76]) {
     let mut c = Cursor::new(&b[..]);
     let r = decode_digital_radar_data(&mut c);
+    crate::stubs::alloc_check();
     wit!(r.is_err());
     if let Ok(m) = &r {
         let q = m.radial();
@@ -149,6 +172,9 @@ macro_rules! named_harness {
         #[kani::proof]
         #[kani::unwind(12)]
         #[kani::stub(alloc::fmt::format, crate::stubs::fmt_format)]
+        #[kani::stub(alloc::alloc::alloc, crate::stubs::alloc_capped)]
+        #[kani::stub(alloc::alloc::alloc_zeroed, crate::stubs::alloc_zeroed_capped)]
+        #[kani::stub(alloc::alloc::realloc, crate::stubs::realloc_capped)]
         #[kani::stub(<[u8; 4] as core::convert::TryFrom<&[u8]>>::try_from, crate::stubs::array_try_from)]
         fn $name() {
             type31_named($n);
@@ -163,6 +189,9 @@ named_harness!(c04_type31_non_utf8_name, [0xFF, 0xFE, 0x41]);
 #[kani::proof]
 #[kani::unwind(5)]
 #[kani::stub(alloc::fmt::format, crate::stubs::fmt_format)]
+#[kani::stub(alloc::alloc::alloc, crate::stubs::alloc_capped)]
+#[kani::stub(alloc::alloc::alloc_zeroed, crate::stubs::alloc_zeroed_capped)]
+#[kani::stub(alloc::alloc::realloc, crate::stubs::realloc_capped)]
 fn c04_vcp_fixed_frame() {
     let b: [u8; 22 + 46 * 2] = kani::any();
     let r = nexrad_decode::messages::volume_coverage_pattern::decode_volume_coverage_pattern(&mut &b[..]);
@@ -178,17 +207,48 @@ fn c04_vcp_fixed_frame() {
 #[kani::proof]
 #[kani::unwind(12)]
 #[kani::stub(alloc::fmt::format, crate::stubs::fmt_format)]
+#[kani::stub(alloc::alloc::alloc, crate::stubs::alloc_capped)]
+#[kani::stub(alloc::alloc::alloc_zeroed, crate::stubs::alloc_zeroed_capped)]
+#[kani::stub(alloc::alloc::realloc, crate::stubs::realloc_capped)]
 #[kani::stub(<[u8; 4] as core::convert::TryFrom<&[u8]>>::try_from, crate::stubs::array_try_from)]
 fn c04_messages_unknown_block() {
+    messages_unknown_block(true);
+}
+
+/// Twin with CONCRETE size fields (segment size 0, count/number 0) and the other header fields
+/// free: a stream loop that "skips" an undecodable message by its declared size makes no progress
+/// here, which the unwinding assertion reports; with free size fields the skip target is symbolic
+/// and CBMC does not get through the re-decoding.
+#[kani::proof]
+#[kani::unwind(12)]
+#[kani::stub(alloc::fmt::format, crate::stubs::fmt_format)]
+#[kani::stub(alloc::alloc::alloc, crate::stubs::alloc_capped)]
+#[kani::stub(alloc::alloc::alloc_zeroed, crate::stubs::alloc_zeroed_capped)]
+#[kani::stub(alloc::alloc::realloc, crate::stubs::realloc_capped)]
+#[kani::stub(<[u8; 4] as core::convert::TryFrom<&[u8]>>::try_from, crate::stubs::array_try_from)]
+fn c04_messages_unknown_block_size0() {
+    messages_unknown_block(false);
+}
+
+fn messages_unknown_block(free_sizes: bool) {
     let mut b = [0u8; 28 + 32 + 4 + 12];
     let f: [u8; 6] = kani::any();
-    b[12] = f[0];
-    b[13] = f[1]; // segment size
+    if free_sizes {
+        b[12] = f[0];
+        b[13] = f[1]; // segment size
+        b[24] = f[2];
+        b[25] = f[3];
+        b[26] = f[4];
+        b[27] = f[5]; // segment count / number
+    } else {
+        b[14] = f[0]; // redundant channel
+        b[16] = f[1];
+        b[17] = f[2]; // sequence number
+        b[18] = f[3];
+        b[19] = f[4]; // date
+        b[23] = f[5]; // time (low byte)
+    }
     b[15] = 31;
-    b[24] = f[2];
-    b[25] = f[3];
-    b[26] = f[4];
-    b[27] = f[5]; // segment count / number
     let h = 28;
     b[h + 31] = 1;
     b[h + 35] = 36;
@@ -198,7 +258,47 @@ fn c04_messages_unknown_block() {
     b[h + 39] = b'Z';
     let mut c = Cursor::new(&b[..]);
     let r = decode_messages(&mut c);
+    crate::stubs::alloc_check();
     assert!(r.is_err(), "C04: an unknown block name is an error");
     wit!(r.is_err());
     core::mem::forget(r);
 }
+
+/// One data block whose pointer lies far beyond the input (concrete representatives 0x1000_0000 and
+/// 0xFFFF_FFFF: a free pointer makes every later read symbolic-offset and does not finish), the
+/// 32-byte type-31 header otherwise free.  Value or error, and no allocation request above the cap:
+/// a decoder that sizes a buffer by the distance to an untrusted pointer fails here.
+fn type31_far_pointer(p: u32) {
+    let mut b = [0u8; 76];
+    let h: [u8; 30] = kani::any();
+    let mut i = 0;
+    while i < 30 {
+        b[i] = h[i];
+        i += 1;
+    }
+    b[31] = 1;
+    b[32..36].copy_from_slice(&p.to_be_bytes());
+    let mut c = Cursor::new(&b[..]);
+    let r = decode_digital_radar_data(&mut c);
+    crate::stubs::alloc_check();
+    assert!(r.is_err(), "C04: a block pointer beyond the input is an error");
+    wit!(r.is_err());
+    core::mem::forget(r);
+}
+
+macro_rules! far_pointer_harness {
+    ($name:ident, $p:expr) => {
+        #[kani::proof]
+        #[kani::unwind(32)]
+        #[kani::stub(alloc::fmt::format, crate::stubs::fmt_format)]
+        #[kani::stub(alloc::alloc::alloc, crate::stubs::alloc_capped)]
+        #[kani::stub(alloc::alloc::alloc_zeroed, crate::stubs::alloc_zeroed_capped)]
+        #[kani::stub(alloc::alloc::realloc, crate::stubs::realloc_capped)]
+        #[kani::stub(<[u8; 4] as core::convert::TryFrom<&[u8]>>::try_from, crate::stubs::array_try_from)]
+        fn $name() {
+            type31_far_pointer($p);
+        }
+    };
+}
+far_pointer_harness!(c04_type31_far_pointer_256m, 0x1000_0000);
+far_pointer_harness!(c04_type31_far_pointer_max, 0xFFFF_FFFF);
